@@ -33,7 +33,7 @@ RULE = ('histories of 2-6 tasks from {create(persist), launch(persist, nowait), 
         '>=1 task was honoured and the model predicted a reply')
 RULE += ('; also: task types resembling launcher attributes, processes failing after recording a result, unpicklable processes, a second launcher on the same persister, tags never saved, a launcher built outside the serving loop')
 ASSUMPTIONS = ['the RabbitMQ transport is replaced by the in-process communicator of pv/comm.py', 'errors may arrive wrapped in RemoteException']
-REQUIRED = ['log_records_formatted', 'redelivered_after_rejection', 'launcher_loader_of_its_own_class', 'paused_at_start_played', 'unknown_pid_kinds/str', 'unknown_pid_kinds/int', 'unknown_pid_kinds/UUID', 'unsaveable_persist_tasks', 'second_launcher_continues', 'late_failures', 'tasks/create', 'tasks/launch', 'tasks/continue', 'tasks/bogus', 'rejected', 'persisted_checks', 'nowait_replies', 'wait_replies', 'error_replies',
+REQUIRED = ['loader/ctx_only', 'log_records_formatted', 'redelivered_after_rejection', 'launcher_loader_of_its_own_class', 'paused_at_start_played', 'unknown_pid_kinds/str', 'unknown_pid_kinds/int', 'unknown_pid_kinds/UUID', 'unsaveable_persist_tasks', 'second_launcher_continues', 'late_failures', 'tasks/create', 'tasks/launch', 'tasks/continue', 'tasks/bogus', 'rejected', 'persisted_checks', 'nowait_replies', 'wait_replies', 'error_replies',
             'route/direct', 'route/thread', 'route/async', 'persister/none', 'persister/mem', 'persister/pickle', 'persister/failing', 'loader/custom',
             'loader/custom_ctx', 'continued_from_tag', 'traces_checked', 'killed_replies', 'launcher_built_elsewhere', 'absent_tag_with_untagged_checkpoint', 'counted_persister']
 BOUNDS = {'quick': '400 histories', 'thorough': '6000 histories'}
@@ -110,8 +110,9 @@ def gen_cases(tier, seed):
     n = 400 if tier == 'quick' else 6000
     for i in range(n):
         persister = ['none', 'mem', 'pickle', 'failing', 'mem', 'pickle'][i % 6]
-        loader = ['default', 'custom', 'custom_ctx', 'custom_split'][(i // 6) % 4]
-        route = ['direct', 'thread', 'async'][(i // 18) % 3]
+        # ('ctx_only': the launcher is given its loader through the load context alone, no loader argument)
+        loader = ['default', 'custom', 'custom_ctx', 'custom_split', 'ctx_only'][(i // 6) % 5]
+        route = ['direct', 'thread', 'async'][(i // 30) % 3]
         hist = []
         created = 0
         for _ in range(rng.randint(2, 6)):
@@ -207,7 +208,7 @@ def run_case(case):
             # the in-memory persister writes with the configured loader, so a strict loader (own identifier scheme) works; the pickle
             # persister cannot be given one and writes default identifiers, which the configured loader then has to understand
             loader = None
-            if case['loader'] != 'default':
+            if case['loader'] not in ('default', 'ctx_only'):
                 loader = c19.LenientCountingLoader() if case['persister'] == 'pickle' else c19.CountingLoader()
             persister = {'none': lambda: None, 'mem': lambda: (CountedPersister if case.get('counted') else plumpy.InMemoryPersister)(loader), 'pickle': lambda: plumpy.PicklePersister(workdir),
                          'failing': lambda: FailingPersister(loader)}[case['persister']]()
@@ -218,6 +219,10 @@ def run_case(case):
                 LauncherSideCounts.consulted = 0
             if case['loader'] == 'custom_ctx':
                 kwargs['load_context'] = plumpy.LoadSaveContext()
+            if case['loader'] == 'ctx_only':
+                # (messages and checkpoints carry default identifiers, which this loader understands -- and counts)
+                kwargs.pop('loader')
+                kwargs['load_context'] = plumpy.LoadSaveContext(loader=c19.LenientCountingLoader())
             if case.get('built') == 'elsewhere':
                 other = asyncio.new_event_loop()
                 asyncio.set_event_loop(other)
@@ -482,7 +487,7 @@ def run_case(case):
                         if LauncherSideCounts.consulted == launcher_loads_before:
                             viol.append(V('loader-unused', 'loader-unused:launcher-side', '%s: the loader the launcher is configured with was never consulted for the continue task '
                                           '(the checkpoint records the class of the persister\'s loader)' % ctx))
-                    elif loader is not None and c19.CountingLoader.loads == loads_before:
+                    elif (loader is not None or case['loader'] == 'ctx_only') and c19.CountingLoader.loads == loads_before:
                         viol.append(V('loader-unused', 'loader-unused', '%s: the configured custom loader was never consulted' % ctx))
                 if viol:
                     break
